@@ -5,7 +5,7 @@
 S=$(cd "$1" && pwd)
 W=$(mktemp -d /tmp/asn1c-seedconf-XXXXXX)
 trap 'rm -rf "$W"' EXIT
-cp -a /repo "$W/r"; cd "$W/r"; git checkout -q -- . 2>/dev/null
+cp -a /repo "$W/r"; cd "$W/r"; git checkout -q -- . 2>/dev/null; [ -n "$SEED_BASE" ] && git checkout -q "$SEED_BASE" 2>/dev/null
 rm -rf tests/tests-c-compiler/test-check* tests/tests-randomized/.tmp.*
 make -j16 abs_top_srcdir="$W/r" abs_top_builddir="$W/r" > "$W/b0.log" 2>&1
 sh "$S/demo.sh" "$W/r" > "$W/demo_clean.log" 2>&1; dc=$?
